@@ -102,7 +102,7 @@ func commandPattern(n *Node) string {
 	for _, x := range n.Extras {
 		fmt.Fprintf(&b, " -x %s", x)
 	}
-	if n.PadTo > 0 {
+	if n.PadTo != 0 {
 		fmt.Fprintf(&b, " -n %d", n.PadTo)
 	}
 	return b.String()
